@@ -4,6 +4,7 @@ import (
 	"bytes"
 	"fmt"
 	"io"
+	"math"
 	"math/rand"
 	"strings"
 	"time"
@@ -350,6 +351,30 @@ func runC07(r *vhlib.Run) {
 		st := xfStream{Sink: sink, Plain: plain, Name: "d1"}
 		c07Case(r, m, st, []xrOp{{Kind: 's', Off: 10}, {Kind: 's', Off: 20}, {Kind: 'r', N: 5}}, "corpus")
 		c07Case(r, m, st, []xrOp{{Kind: 'r', N: 0}, {Kind: 'r', N: 3}}, "corpus")
+		// offsets at the edge of int64: a Seek either fails or reports a position that is not negative,
+		// and what is read afterwards is what a ReadSeeker over the data reads there (nothing, beyond the end)
+		for _, h := range [][][2]int64{
+			{{math.MaxInt64, 2}}, {{math.MaxInt64, 0}, {1, 1}}, {{5, 0}, {math.MaxInt64, 1}}, {{math.MaxInt64 - 3, 0}, {math.MaxInt64, 1}},
+			{{math.MinInt64, 2}}, {{math.MinInt64, 1}}, {{1, 2}, {math.MaxInt64, 1}},
+		} {
+			xr, err := xflate.NewReader(bytes.NewReader(sink), nil)
+			if err != nil {
+				break
+			}
+			r.Eval("seek-int64-edge", true, []byte(fmt.Sprint(h)))
+			for _, so := range h {
+				p, err := xr.Seek(so[0], int(so[1]))
+				if err == nil && p < 0 {
+					r.Violate("seek-position", fmt.Sprintf("Seek(%d, %d) = (%d, nil): a negative position without an error", so[0], so[1], p), map[string]interface{}{"stream": vhlib.Hex(sink), "seeks": fmt.Sprint(h)})
+				}
+			}
+			if p, err := xr.Seek(0, io.SeekCurrent); err == nil && p > int64(len(plain)) {
+				buf := make([]byte, 8)
+				if n, _ := xr.Read(buf); n > 0 {
+					r.Violate("read-error", fmt.Sprintf("position %d beyond the end (%d): Read delivered %d bytes", p, len(plain), n), map[string]interface{}{"stream": vhlib.Hex(sink), "seeks": fmt.Sprint(h)})
+				}
+			}
+		}
 	}
 	depth := 3
 	if !r.Quick() {
